@@ -146,7 +146,7 @@ func spaces(thorough bool) (a3, a4, b *space) {
 	if thorough {
 		a4 = &space{Name: "A-names-shapes", names: []string{"a", "..a", "a..b", " a", "日本", "x.zip"}, leaves: []int{-1, cEmpty, c1B}, maxSize: 4}
 	}
-	b = &space{Name: "B-contents", names: []string{"a", "b"}, leaves: []int{-1, cEmpty, c1B, c32Km1, c32K, c32Kp1, c1MComp, c1MRand}, maxSize: 2}
+	b = &space{Name: "B-contents", names: []string{"a", "b"}, leaves: []int{-1, cEmpty, c1B, c32Km1, c32K, c32Kp1, c1MComp, c1MRand, c1MZeroTail}, maxSize: 2}
 	if thorough {
 		b = &space{Name: "B-contents", names: []string{"a", "b", "c"}, leaves: b.leaves, maxSize: 3}
 	}
